@@ -27,6 +27,7 @@ from check_C05 import ALPHA6
 
 ALPHA8 = [[1, 3, 1, 1, 1, 1, 1, 1], [1, 1, 4, 1, 1, 1, 1, 1], [1, 1, 1, 2, 1, 1, 1, 1], [1, 1, 1, 1, 5, 1, 1, 1],
           [1, 1, 1, 1, 1, 3, 1, 1], [1, 1, 1, 1, 1, 1, 4, 1], [1, 2, 1, 1, 1, 3, 1, 1], [1, 1, 1, 1, 1, 1, 1, 1]]
+ALPHA8D = [[1, 6, 1, 1, 1, 1, 1, 1]] + ALPHA8[1:7]
 NSETC = [[1, 1], [3, 2], [2, 1], [3, 1]]
 MAXITSC = [1, 2, 3, 50]
 
@@ -82,16 +83,56 @@ def main():
     # ---- traditional, 5 windows on an 8-point grid --------------------------------------------
     nw, nf = (4, 8) if quick else (5, 8)
     k_ex = 210 if quick else 462          # of the 210 (NW=4) / 462 (NW=5) window multisets over 7 curves
-    ex = hvsrobj.cfg_text(1, nw, nf, "Alpha8a", "Ranges8", "NSetC", "MaxItsC", "InitPermsEnvQ", export=True, nxt="NextC06",
+    ex = hvsrobj.cfg_text(1, nw, nf, "Alpha8d", "Ranges8", "NSetC", "MaxItsC", "InitPermsEnvQ", export=True, nxt="NextC06",
                           invariants=["TypeOK", "PeaksCurrent"], props=["FdwraStep"])
     res, graph = hvsrobj.export_graph(ex, "C06-export", {"VERIF_K": k_ex, "VERIF_SEED": run.seed}, timeout=6000)
     run.add_tlc(res, "HvsrObject NextC06 (I tier, all orderings of the sampled window multisets): FdwraStep = never "
                      "re-accepts, 1<=it<=max, I outcome in P set; every transition exported")
-    consts = (f"  NA = 1\n  NW = {nw}\n  NF = {nf}\n  Alphabet <- Alpha8a\n  Ranges <- Ranges8\n  NSet <- NSetC\n"
+    consts = (f"  NA = 1\n  NW = {nw}\n  NF = {nf}\n  Alphabet <- Alpha8d\n  Ranges <- Ranges8\n  NSet <- NSetC\n"
               f"  MaxIts <- MaxItsC\n  TdMasks <- AllMasks\n  InitSel <- InitAll\n  SThr <- SThrHalf\n")
-    rp = hvsrobj.Replayer(run, hvsrpy, graph, ALPHA8[:7], 1, nw, nf, consts, focus={"Fdwra", "Init"})
-    for inst in (hvsrobj.Instance(nf, "N", "N"), hvsrobj.Instance(nf, "N", "L"), hvsrobj.Instance(nf, "N", "N", ascale=8.0)):
+    rp = hvsrobj.Replayer(run, hvsrpy, graph, ALPHA8D, 1, nw, nf, consts, focus={"Fdwra", "Init"})
+    # code -> spec through the algorithm's own DEBUG trace: at every iteration the logged mean / std of fn and the
+    # logged mean-curve peak must be those of the specification for the logged accept masks (this is where
+    # distribution_fn / distribution_mc are observable independently of the final decisions)
+    logstat = dict(iterations=0)
+
+    def fdwra_hook(real, t, p, states, cv, its):
+        inst = real.inst
+        for it in its:
+            if "vw" not in it or "vp" not in it:
+                continue
+            key = hvsrobj.skey(dict(r=p["r"], m=p["r"], pk=p["pk"], vw=[it["vw"]], vp=[it["vp"]]))
+            sl = states.get(key)
+            if sl is None:
+                continue
+            st = sl["az"][0]
+            logstat["iterations"] += 1
+            rep = dict(kind="fdwra-log", cv=cv, s=t["s"], a=t["a"], iteration=it, inst=inst.name())
+            if st["nfn"] >= 2 and it.get("mean_fn_before") is not None:
+                em, es = inst.f_mean(hvsrobj.rat(st["mf"])), inst.f_std(hvsrobj.rat(st["vf"]))
+                if abs(it["mean_fn_before"] - em) > 1e-9 * abs(em) or abs(it["std_fn_before"] - es) > 1e-9 * abs(es) + 1e-12:
+                    run.violation("fdwra:log:fn-statistics", f"{t['a']} cv={cv} ({inst.name()}): iteration {it['k']} logs mean/std fn "
+                                  f"{it['mean_fn_before']}/{it['std_fn_before']} for masks {it['vp']}, exact {em}/{es} under distribution_fn={inst.dist_f}", rep)
+            if st["ncv"] >= 2 and it.get("mc_peak_frq_before") is not None:
+                gi = inst.idx(it["mc_peak_frq_before"])
+                if gi not in st["mcp"]:
+                    run.violation("fdwra:log:mean-curve-peak", f"{t['a']} cv={cv} ({inst.name()}): iteration {it['k']} uses the mean-curve peak at grid index "
+                                  f"{gi} for accepted windows {it['vw']}; under distribution_mc={inst.dist_a} the mean curve peaks at {st['mcp']}", rep)
+    rp.fdwra_hook = fdwra_hook
+    for inst in (hvsrobj.Instance(nf, "N", "N"), hvsrobj.Instance(nf, "N", "L", q=2.0), hvsrobj.Instance(nf, "N", "N", ascale=8.0)):
         rp.replay(inst)
+    run.notes["fdwra_log_iterations_checked"] = logstat["iterations"]
+    # the same through a fixed set where the arithmetic and geometric mean curves peak at different frequencies
+    exd = hvsrobj.cfg_text(1, 4, nf, "Alpha8d", "Ranges8", "NSetC", "MaxItsC", "InitTallMedium", export=True, nxt="NextC06")
+    resd, gd = hvsrobj.export_graph(exd, "C06-tallmedium", {}, timeout=3000)
+    run.add_tlc(resd, "HvsrObject NextC06 from the orderings of {tall tent, 3 medium tents}: arithmetic vs geometric mean-curve peak differ")
+    constsd = consts.replace(f"NW = {nw}", "NW = 4")
+    rpd = hvsrobj.Replayer(run, hvsrpy, gd, ALPHA8D, 1, 4, nf, constsd, focus={"Fdwra", "Init"})
+    rpd.fdwra_hook = fdwra_hook
+    for inst in (hvsrobj.Instance(nf, "N", "L", q=2.0), hvsrobj.Instance(nf, "N", "N")):
+        rpd.replay(inst)
+    rpd.validate_pending()
+    run.notes["fdwra_log_iterations_checked"] = logstat["iterations"]
     # order of the windows: in the TLC state graph itself, the Fdwra transitions leaving the initial state of
     # every ordering of a window multiset must give the same multiset of (curve, accepted) pairs and the same
     # iteration count (the real objects are compared with each ordering's transitions above; a real outcome
@@ -117,7 +158,7 @@ def main():
     # ---- lognormal fn: code -> spec, criterion with exp() left open ------------------------------
     ranges = [[-99, -99], [-99, 12], [4, -99], [4, 14]]
     lh = LogFnHook(hvsrpy, rs, ranges, per_state=2 if quick else 4)
-    rp_l = hvsrobj.Replayer(run, hvsrpy, graph, ALPHA8[:7], 1, nw, nf, consts, focus={"Fdwra", "Init"})
+    rp_l = hvsrobj.Replayer(run, hvsrpy, graph, ALPHA8D, 1, nw, nf, consts, focus={"Fdwra", "Init"})
     for inst in (hvsrobj.Instance(nf, "L", "L", q=50.0), hvsrobj.Instance(nf, "L", "N", q=50.0)):
         rp_l.replay(inst, state_hook=lh, max_groups=40 if quick else None)
     rp.validate_pending()
